@@ -207,7 +207,44 @@ def chk_surface(c, note):
     return None
 
 
+def enum_corpus(ctx):
+    from vlib import corpus
+    for start, _ in corpus.blocks(corpus.adsb(), ctx):
+        yield {"start": start}
+
+
+def chk_corpus(case, note):
+    from vlib import corpus
+    n = 0
+    for m, _icao, tc in corpus.adsb()[case["start"]:case["start"] + 100]:
+        if tc != 19:
+            continue
+        me = (int(m, 16) >> 24) & ((1 << 56) - 1)
+        g = lambda first, last: (me >> (56 - last)) & ((1 << (last - first + 1)) - 1)
+        c = {"st": g(6, 8), "s1": g(14, 14), "f1": g(15, 24), "s2": g(25, 25), "f2": g(26, 35), "vrsrc": g(36, 36), "vrsign": g(37, 37), "vr": g(38, 46),
+             "dsign": g(49, 49), "diff": g(50, 56)}
+        if c["st"] not in (1, 2, 3, 4):
+            continue
+        exp = expected_air(c)
+        r = call(pms.adsb.velocity, m, True)
+        if r[0] != "ok":
+            return "velocity(%s, source=True) raised %r on a real frame" % (m, r[1:])
+        if exp is None:
+            if r[1] is not None:
+                return "velocity(%s) = %r, expected None (real frame with an unavailable component)" % (m, r[1])
+        elif not (isinstance(r[1], tuple) and len(r[1]) == 6 and match(exp[0], r[1][0]) and match(exp[1], r[1][1]) and match(("exact", exp[2]), r[1][2])
+                  and r[1][3:] == (exp[3], exp[4], exp[5])):
+            return "velocity(%s, source=True) = %r; the fields of this real frame mean speed %r angle %r vertical rate %r %s %s %s" % (
+                m, r[1], exp[0][1], exp[1][1], exp[2], exp[3], exp[4], exp[5])
+        n += 1
+    note.evals = max(1, n)
+    note.cls("real-tc19")
+    note.nt(n > 0)
+    return None
+
+
 LEGS = [
+    Leg("corpus", chk_corpus, enum=enum_corpus, exhaustive=True, doc="965 real airborne velocity frames judged by the reference field decoding"),
     Leg("surface", chk_surface, enum=enum_surface, exhaustive=True, doc="all 128 movement x 2 status x 128 track codes"),
     Leg("airborne_sweep", chk_air, enum=enum_air_sweep, exhaustive=True, doc="each TC19 field swept over its whole range per subtype, other fields random"),
     Leg("airborne", chk_air, strategy=s_air, quick=30000, thorough=1200000, doc="boundary-biased TC19 field combinations"),
